@@ -1,21 +1,21 @@
 """C29 A custom hostname is bound to one client, only after DNS proof.  Spec: AcmeCtl (families validate, hist, hist_obs)."""
 import json, vf
 
-REFUSED_HOSTS = ("bare", "apex", "apexup", "acme")
+REFUSED_HOSTS = ("bare", "apex", "apexup", "acme", "apexspaced", "acmespaced")
 
 def _why(c, e):
     if c["host"] in REFUSED_HOSTS:
         return "%s-host" % c["host"]
-    if c["proof"] != "valid":
+    if c["proof"] not in ("valid", "validsent"):
         return "%s-proof" % c["proof"]
     if e["pre"] not in ("none", c["caller"]):
         return "bound-to-other"
     return "cname-%s" % c["cname"]
 
 def run(ck):
-    ck.rule = ("TLC enumerates caller {A,B} x method {validate, instruction} x 7 hostname classes (valid, upper-case, white space, bare, "
-               "apex-suffixed, upper-case apex, ACME-zone) x CNAME answer {own target, other client's target, junk, none} x stored binding "
-               "{none, caller, other client} x proof {valid, missing, other subject, tampered signature, expired, too few bits}, and all "
+    ck.rule = ("TLC enumerates caller {A,B} x method {validate, instruction} x 10 hostname classes (valid, upper-case, white space around, bare, "
+               "apex-suffixed, upper-case apex, ACME-zone, white space inside the apex / ACME zone, non-ASCII label) x CNAME answer {own target, other client's target, junk, none} x stored binding "
+               "{none, caller, other client} x proof {valid for the denoted name, valid for the string as sent, missing, other subject, tampered signature, expired, too few bits}, and all "
                "histories of <=3 validations by two clients with a changing DNS answer; every case runs on the real handlers over the "
                "in-memory KV provider with real proofs of work; the stored bindings are read back after every call; histories are judged "
                "by TLC on the recorded outcomes; non-trivial = every case")
